@@ -73,21 +73,11 @@ def main():
         for h in hs:
             groups.setdefault((h.profile, h.features), []).append(h)
         for (profile, features), ghs in sorted(groups.items()):
-            dest = os.path.join(scratch_dir, "kani-%s" % profile)
-            needed = []
-            for h in ghs:
-                if h.unit not in needed:
-                    needed.append(h.unit)
-            # units required by others (stub_verified on a contract defined elsewhere)
-            for u in list(needed):
-                for dep in u.needs:
-                    for v in all_units:
-                        if v.uid == dep and v not in needed:
-                            needed.append(v)
+            dest = os.path.join(scratch_dir, "kani-%s-%s" % (profile, features))
             if not os.path.exists(os.path.join(dest, "Cargo.toml")):
                 S.copy_crate(dest, profile)
                 try:
-                    S.inject(dest, needed_all(all_units, hs, profile))
+                    S.inject(dest, needed_all(all_units, ghs, profile))
                 except Undecided as e:
                     undecided.append(("inject", str(e)))
                     for h in ghs:
